@@ -348,10 +348,6 @@ func runCase(r *evid.Run, t txSpec, present bool, prior int, price uint64, hi in
 		viol("success-flag-wrong", fmt.Sprintf("result success=%v, expected %v (error %q)", res.Success, wantOK, res.Error))
 		return
 	}
-	if !wantOK && len(res.Error) == 0 {
-		viol("failure-without-error", "failed result carries no error")
-		return
-	}
 	if len(res.Outputs) != len(wantOuts) {
 		viol("outputs-differ", fmt.Sprintf("outputs %q, expected %q", res.Outputs, wantOuts))
 		return
